@@ -11,10 +11,10 @@ Local Open Scope N_scope.
 Definition site_cur_tok : nat := 1491.          (* F3: strncpy leaves cur_tok unterminated, strlen over-reads *)
 Definition site_ranges_oob : nat := 1429.       (* ranges[count++] beyond the array *)
 Definition site_host_buf : nat := 1457.         (* snprintf(host, limit) with limit > sizeof host *)
-Definition site_suffix_hang : nat := 1454.      (* for (j = lo; j <= hi; j++) with hi = ULONG_MAX *)
+Definition site_suffix_hang : nat := 1454.      (* for (j = lo; j <= hi; j++) with hi = ULONG_MAX and no break after j == hi (F33) *)
 Definition site_hrstr : nat := 1818.            (* _hostrange_string: snprintf(buf+len, 79-len) with len >= 80 *)
 Definition site_delete_nth_assert : nat := 1851.
-Definition site_intersect_assert : nat := 856.
+Definition site_intersect_assert : nat := 856.       (* assert(hostrange_cmp(h1, h2) <= 0); F36: now `return NULL` *)
 Definition site_coalesce_uaf : nat := 2001.     (* hostlist_delete_range(hl,i) frees hnext, which is then read *)
 Definition site_coalesce_hang : nat := 2003.
 Definition site_iter_null : nat := 2258.        (* i->hr is NULL while idx < nranges *)
@@ -342,8 +342,8 @@ Fixpoint collapse (h : hostlist) : hostlist :=
 Definition intersect (h1 h2 : hrange) : outcome (option hrange * hrange * hrange) :=
   if hr_single h1 || hr_single h2 then Ok (None, h1, h2)
   else
-    let '(c, h1a, h2a) := if GenHL.NDEBUG =? 0 then hostrange_cmp h1 h2 else (0%Z, h1, h2) in
-    if (0 <? c)%Z then Abort site_intersect_assert
+    let '(c, h1a, h2a) := if (GenHL.INTERSECT_ORDER_CHECK =? 1) || (GenHL.NDEBUG =? 0) then hostrange_cmp h1 h2 else (0%Z, h1, h2) in
+    if (0 <? c)%Z then (if GenHL.INTERSECT_ORDER_CHECK =? 1 then Ok (None, h1a, h2a) else Abort site_intersect_assert)
     else if (prefix_cmp h1a h2a =? 0)%Z && (hr_lo h2a <? hr_hi h1a) then
            match width_combine h1a h2a with
            | Some (h1b, h2b) =>
@@ -539,7 +539,7 @@ Fixpoint push_range_list_with_suffix (h : hostlist) (pfx sfx : text) (rs : list 
   | [] => Ok h
   | r :: rs' =>
     if GenHL.HOST_BUF_SIZE <? GenHL.HOST_BUF_LIMIT then MemErr site_host_buf
-    else if pr_hi r =? ULONG_MAX then Hang site_suffix_hang
+    else if (GenHL.SUFFIX_LOOP_BREAKS =? 0) && (pr_hi r =? ULONG_MAX) then Hang site_suffix_hang
     else
       let ks := nseq (pr_lo r) (N.to_nat (pr_hi r + 1 - pr_lo r)) in
       let h' := fold_left (fun h j => fst (fst (push_range h (mk_single (suffix_host pfx sfx (pr_width r) j))))) ks h in
